@@ -8,9 +8,12 @@ PROPS["C20"] = {
             "the event streams of real tm/js parses are also fed to the builder (c20.build cases)",
     "modelled": "gen/templates/go_ast_parse.go.tmpl builder.addNode (scan from the top while offset >= node offset, `end` moves once for every scanned entry starting at or after the end offset, three splice cases, parent/next/firstChild links) as Gram/TreeBuilder.v add_node. "
                 "Not modelled: the producers (parse loop with recovery, token reporting, js hand-written loop); their streams are judged, not predicted",
-    "partial": "builder half: universal theorem. Producer half (every input, valid or not, yields a well-nested stream): monitored on the shipped parsers; proved only for recovery-free fixWhitespace parsers via C02",
+    "partial": "builder half: universal theorem. Producer half: universal theorem for the recovery-free fixWhitespace parse loop (C20_parser_events_are_well_nested, all machines/inputs/outcomes, under the C02 tree well-formedness and laminar reports); "
+               "with error recovery, injected tokens and the hand-written js loop the stream is monitored on the shipped parsers, not proved",
     "level_text": "Coq theorem C20_builder_correct: for EVERY event stream whose nodes are pairwise disjoint or nested with containers reported after their contents, builder.addNode yields a forest with exactly the reported nodes, each child inside its parent, siblings in source order and disjoint (hence attached to its smallest container). "
                   "The model is compared tree for tree with the builders of parsers/tm/ast and parsers/js/ast on thousands of random streams (well-nested, corrupted and arbitrary), and the implementation's trees are judged by the extracted wf_forest/multiset oracle. "
+                  "Coq theorem C20_parser_events_are_well_nested: for EVERY machine, event table with laminar reports (inner arrows first, nested_table), input of ordered non-empty tokens and fuel, the events the fixWhitespace parse loop (Gram/Events.v xrun, no recovery) has emitted when it stops -- accepted or not -- satisfy ok_events and in_input, provided the trees on the final stack are well formed (C02's wf_tree) and end-of-input leaves are stack entries of their own; "
+                  "C20_parser_and_builder composes it with the builder theorem (the parser's stream builds a well-formed forest with exactly the reported nodes). "
                   "The first half of the property (nodes inside the input, disjoint or nested, containers last) is evaluated on the real listener callbacks of the shipped tm, js, json and test parsers on valid and broken inputs.",
     "level_note": "Trusted: Coq kernel, extraction, glue; hooks parsers/{tm,js}/ast/verif_hooks.go (drive addNode, dump the stack). Range-based nesting: a zero-length node at the start of a following sibling is inside that sibling (the statement's notion of container).",
     "technique": "Coq proof over a Gallina model of addNode + extracted-model differential correspondence + proved-sound forest oracle; event-stream monitor on shipped parsers",
